@@ -389,6 +389,25 @@ class Walker:
             self.q(k.value)
         return TOP
 
+    def shortcut_guard(self, s: ast.If):
+        """`if X.n_photons == 0: dist = {State([0] * N): 1}`: the photon count must be counted in the
+        space of N (a vacuum *visible* input still carries the herald photons)."""
+        t = s.test
+        if not (isinstance(t, ast.Compare) and len(t.ops) == 1 and isinstance(t.ops[0], ast.Eq) and src(t.comparators[0]) == "0"):
+            return
+        pq = self.q(t.left)
+        if pq[0] != "pcount":
+            return
+        for b in s.body:
+            for d in ast.walk(b):
+                if isinstance(d, ast.Dict) and len(d.keys) == 1 and isinstance(d.keys[0], ast.Call) and src(d.keys[0].func) == "State":
+                    a = d.keys[0].args[0] if d.keys[0].args else None
+                    if isinstance(a, ast.BinOp) and isinstance(a.op, ast.Mult) and src(a.left) == "[0]":
+                        mq = self.q(a.right)
+                        self.chk(s, "B6-shortcut-guard-space", f"vacuum shortcut: photons {pq[1]}, modes {mq[1]}")
+                        if pq[1] and mq[1] and not space_eq(pq[1], mq[1], self.lossless, self.noheralds):
+                            self.rep(s, "B6-shortcut-guard-space", f"the vacuum-distribution shortcut over {mq[1]}-space modes is taken when a {pq[1]}-space photon count is zero: herald photons are not counted, so a circuit whose heralds carry photons reports the vacuum with certainty")
+
     def bind(self, target, q):
         if isinstance(target, ast.Subscript) and src(target.value).startswith("self.") and isinstance(target.value, ast.Attribute):
             self.A.fieldq[(self.cls, mangle(self.cls, target.value.attr) + "[]")] = q
@@ -450,6 +469,7 @@ class Walker:
             elif isinstance(s, ast.If):
                 self.q(s.test)
                 ts = src(s.test)
+                self.shortcut_guard(s)
                 w1, w2 = self.child(), self.child()
                 if ts.startswith("not ") and ts.endswith("loss_modes"):
                     w1.lossless = True
